@@ -87,6 +87,15 @@ Section Model.
   Definition iadd_self (dv : dispatch) (io : iadd_order) (x : cf) : option (cf * bool) :=
     match ctor dv (comps x) with Some y => Some (iadd io x y) | None => None end.
 
+  (* SpectralDensity (spectraldensities.py): add_to_data / add_to_data2 carry no temperature test and no cut-off time;
+     a + b and x += x rebuild an operand with the class's own constructor [sdctor] *)
+  Definition sd_add_to_data (o other : cf) : cf :=
+    mkCf (comps o ++ comps other) (lamb o + lamb other) (temp o) (cutoff o) (data o + data other).
+  Definition sd_add (sdctor : list comp -> option cf) (a b : cf) : option cf :=
+    match sdctor (comps a) with Some f => Some (sd_add_to_data f b) | None => None end.
+  Definition sd_iadd_self (sdctor : list comp -> option cf) (x : cf) : option cf :=
+    match sdctor (comps x) with Some y => Some (sd_add_to_data x y) | None => None end.
+
   (* expression trees over leaves *)
   Inductive expr := Leaf (o : cf) | Plus (a b : expr).
   Fixpoint eval (dv : dispatch) (e : expr) : option cf :=
